@@ -147,8 +147,8 @@ func evaluateSearchCaseExpression(node *ExprNode, data map[string]any) (float64,
 
 	// Iterate through WHEN clauses
 	for _, whenClause := range caseExpr.WhenClauses {
-		// Evaluate WHEN condition - use boolean evaluation to handle logical operators
-		conditionResult, err := evaluateBoolNode(whenClause.Condition, data)
+		// Evaluate WHEN condition with SQL three-valued logic (NULL is not true)
+		conditionResult, _, err := evaluateConditionWithNull(whenClause.Condition, data)
 		if err != nil {
 			return 0, err
 		}
@@ -186,8 +186,9 @@ func evaluateCaseExpressionWithNull(node *ExprNode, data map[string]any) (any, b
 
 	// Search CASE expression: CASE WHEN condition THEN result
 	for _, whenClause := range caseExpr.WhenClauses {
-		// Evaluate WHEN condition - use boolean evaluation to handle logical operators
-		conditionResult, err := evaluateBoolNode(whenClause.Condition, data)
+		// Evaluate WHEN condition with SQL three-valued logic: a condition over a
+		// NULL or missing column is not true, so the next WHEN / ELSE is taken
+		conditionResult, _, err := evaluateConditionWithNull(whenClause.Condition, data)
 		if err != nil {
 			return nil, false, err
 		}
